@@ -64,6 +64,16 @@ class SchedLock:
         self.name = name
 
     def acquire(self, *a, **k):
+        timed = (len(a) >= 1 and a[0] is False) or k.get("block") is False or k.get("blocking") is False or \
+            (len(a) >= 2 and a[1] is not None) or k.get("timeout") is not None
+        if timed and MODE == "schedule" and CTL is not None and _tid() is not None:
+            # a non-blocking or timed acquire: under the scheduler the timeout "expires" whenever the lock is held
+            # at the moment the task is scheduled (wall-clock time does not exist here)
+            point("acquire", self.name)
+            if self.real.acquire(False):
+                return True
+            point("acquire_timed_out", self.name)
+            return False
         if MODE == "schedule" and CTL is not None and _tid() is not None:
             # The *real* lock decides who gets in (a lock that is not shared between forked processes, or a
             # lock object replaced by another one, must not be masked by a model of ours): after the grant the
@@ -354,11 +364,12 @@ class Controller:
                     t = msg[1]
                     if msg[0] == "park":
                         self.parked[t] = (msg[2], msg[3])
-                        if msg[2] == "blocked":  # the acquire granted last did not succeed
+                        if msg[2] in ("blocked", "acquire_timed_out"):  # the acquire granted last did not succeed
                             self.holding.setdefault(t, set()).discard(msg[3])
                             if self.owner.get(msg[3]) == t:
                                 self.owner[msg[3]] = None
-                            self.waiting[t] = (msg[3], self.releases.get(msg[3], 0))
+                            if msg[2] == "blocked":
+                                self.waiting[t] = (msg[3], self.releases.get(msg[3], 0))
                     else:
                         if self.mode == "threads":
                             self.done[t] = msg[2]
